@@ -16,7 +16,8 @@ const GARBAGE: &[u8] = b"\xff\xfe\x00 garbage <<< not a plist, not xml, not utf-
 #[derive(Clone, Debug)]
 pub struct LayerU {
     pub name: String,
-    pub dir: String,
+    pub dir: String,     // where the directory is
+    pub written: String, // how layercontents.plist spells it (normally the same)
     pub glyphs: Vec<(String, String, u32)>, // name, file, id
     pub info: u32,                          // 0 = no layerinfo.plist
 }
@@ -106,7 +107,7 @@ pub fn gen_ufo(r: &mut Rng, valid_only: bool) -> Ufo {
         }
         glyphs.sort();
         let info = if r.chance(1, 2) { next() } else { 0 };
-        u.layers.push(LayerU { name: n, dir: d, glyphs, info });
+        u.layers.push(LayerU { name: n, written: d.clone(), dir: d, glyphs, info });
     }
     if r.chance(2, 3) && !u.data_is_file {
         for k in ["a.txt", "d/e.bin", "d/f/g"] {
@@ -172,8 +173,8 @@ pub fn files(u: &Ufo) -> Vec<(String, Option<(Vec<u8>, String)>)> {
     let mut lc = String::from("<array>\n");
     let mut lcg = vec![];
     for l in &u.layers {
-        let _ = write!(lc, "<array><string>{}</string><string>{}</string></array>\n", l.name, l.dir);
-        lcg.push(format!("({},[Normal {}])", gq(&l.name), gq(&l.dir)));
+        let _ = write!(lc, "<array><string>{}</string><string>{}</string></array>\n", l.name, l.written);
+        lcg.push(format!("({},{})", gq(&l.name), grel_text(&l.written)));
     }
     lc.push_str("</array>\n");
     f("layercontents.plist", pl(&lc), format!("LLayerContents [{}]", lcg.join(";")));
@@ -253,6 +254,23 @@ pub fn write_ufo(root: &Path, u: &Ufo, garbage: &[String], removed: &[String]) {
     }
 }
 
+/// a path as written in a plist, as Rust's `components()` sees it
+fn grel_text(w: &str) -> String {
+    let mut v = vec![];
+    for c in Path::new(w).components() {
+        v.push(match c {
+            std::path::Component::Normal(s) => format!("Normal {}", gq(&s.to_string_lossy())),
+            std::path::Component::ParentDir => "ParentDir".to_string(),
+            std::path::Component::CurDir => "CurDir".to_string(),
+            _ => "RootDir".to_string(),
+        });
+    }
+    format!("[{}]", v.join(";"))
+}
+/// the class of finding F23: a default layer directory that is not written exactly `glyphs`
+pub fn class_f23(u: &Ufo) -> bool {
+    u.layers.iter().any(|l| Path::new(&l.written).file_name().map(|f| f == "glyphs").unwrap_or(false) && l.written != "glyphs")
+}
 fn gpath(rel: &str) -> String {
     let mut parts = vec!["\"u\"".to_string()];
     if !rel.is_empty() {
@@ -299,12 +317,12 @@ fn greq(q: &Req) -> String {
     let b = |k: u32| g_bool(q.mask & k != 0);
     let custom = match &q.custom {
         None => "None".to_string(),
-        Some(s) => format!("(Some [{}])", s.iter().map(|(n, d)| format!("({},[Normal {}])", gq(n), gq(d))).collect::<Vec<_>>().join(";")),
+        Some(s) => format!("(Some [{}])", s.iter().map(|(n, d)| format!("({},{})", gq(n), grel_text(d))).collect::<Vec<_>>().join(";")),
     };
     format!("(Request {} {} {} {} {} {} (LFilter {} {} {}))", b(1), b(2), b(4), b(8), b(16), b(32), g_bool(q.all), g_bool(q.default), custom)
 }
 pub fn filter_shapes(u: &Ufo, r: &mut Rng) -> Vec<Req> {
-    let all_pairs: Vec<(String, String)> = u.layers.iter().map(|l| (l.name.clone(), l.dir.clone())).collect();
+    let all_pairs: Vec<(String, String)> = u.layers.iter().map(|l| (l.name.clone(), l.written.clone())).collect();
     let non_default: Vec<(String, String)> = all_pairs.iter().filter(|(_, d)| d != "glyphs").cloned().collect();
     let mut by_name = vec![];
     for p in &all_pairs {
@@ -345,7 +363,7 @@ pub fn unrequested_files(u: &Ufo, q: &Req) -> Vec<String> {
                 } else if top == "images" {
                     q.mask & 32 == 0
                 } else if let Some(l) = u.layers.iter().find(|l| l.dir == top) {
-                    !selected(q, &l.name, &l.dir)
+                    !selected(q, &l.name, &l.written)
                 } else {
                     false
                 }
@@ -467,7 +485,11 @@ pub fn observe(root: &Path, q: &Req) -> (String, String, Option<Font>) {
 
 // ---------------------------------------------------------------- oracle
 /// the full load restricted to the request, through the public API only
-pub fn restrict(full: &Font, q: &Req) -> Font {
+pub fn restrict(full: &Font, q: &Req, u: &Ufo) -> Font {
+    // the filter sees the directory as layercontents.plist spells it
+    let written = |name: &str, dir: &str| -> String {
+        u.layers.iter().find(|l| l.name == name).map(|l| l.written.clone()).unwrap_or_else(|| dir.to_string())
+    };
     let mut f = full.clone();
     if q.mask & 1 == 0 {
         f.lib = Plist::new();
@@ -492,9 +514,11 @@ pub fn restrict(full: &Font, q: &Req) -> Font {
     if q.mask & 32 == 0 {
         f.images = Default::default();
     }
-    f.layers.retain(|l| selected(q, l.name(), &l.path().to_string_lossy()));
+    f.layers.retain(|l| selected(q, l.name(), &written(l.name(), &l.path().to_string_lossy())));
     let d = f.layers.default_layer();
-    if !selected(q, d.name(), "glyphs") {
+    // "default only" means the default layer, however its directory is spelt
+    let default_selected = q.all || q.default || selected(q, d.name(), &written(d.name(), "glyphs"));
+    if !default_selected {
         let old = d.name().to_string();
         if old != "public.default" {
             f.layers.rename_layer(&old, "public.default", false).unwrap();
@@ -516,7 +540,19 @@ fn glist_paths(ps: &[String]) -> String {
     format!("[{}]", ps.iter().map(|p| gpath(p)).collect::<Vec<_>>().join(";"))
 }
 
+/// `c17 probe <ufo dir>`: full load and default-layer-only load of an existing directory
+fn probe(dir: &Path) {
+    let full = catch(|| Font::load(dir));
+    println!("Font::load: {}", match &full { Ok(Ok(f)) => format!("Ok, layers {:?}", f.layers.iter().map(|l| (l.name().to_string(), l.path().to_path_buf())).collect::<Vec<_>>()), Ok(Err(e)) => format!("Err {:?}", e), Err(_) => "PANIC".into() });
+    let part = catch(|| Font::load_requested_data(dir, DataRequest::none().default_layer(true)));
+    println!("load_requested_data(none().default_layer(true)): {}", match &part { Ok(Ok(f)) => format!("Ok, layers {:?}", f.layers.iter().map(|l| (l.name().to_string(), l.path().to_path_buf())).collect::<Vec<_>>()), Ok(Err(e)) => format!("Err {:?}", e), Err(_) => "PANIC".into() });
+}
+
 pub fn main(a: &Args) {
+    if a.extra.first().map(|s| s.as_str()) == Some("probe") {
+        probe(Path::new(&a.extra[1]));
+        return;
+    }
     std::fs::create_dir_all(&a.out).unwrap();
     let (n_ufos, masks): (u64, Vec<u32>) = if a.thorough() { (120, (0..64).collect()) } else { (8, (0..64).collect()) };
     let replay: Option<(u64, u64)> = a.replay.as_ref().map(|rp| {
@@ -529,10 +565,19 @@ pub fn main(a: &Args) {
     let mut json = String::new();
     let mut case_no = 0u64;
     let mut row_no = 0u64;
-    for ui in 0..n_ufos {
+    // the witness of F23 (corpus/C17/f23_dot_glyphs.txt) runs first, as UFO number n_ufos
+    let order: Vec<u64> = std::iter::once(n_ufos).chain(0..n_ufos).collect();
+    for ui in order {
         let mut r = Rng::new(a.seed.wrapping_mul(0x9E37_79B9_7F4A_7C15) ^ ui.wrapping_mul(0xD1B5_4A32_D192_ED03) ^ 0x1717);
         // most UFOs are fully valid (the theorem's premise); some have invalid parts
-        let u = gen_ufo(&mut r, ui % 4 != 3);
+        let mut u = gen_ufo(&mut r, ui % 4 != 3 || ui == n_ufos);
+        if ui == n_ufos {
+            for l in u.layers.iter_mut() {
+                if l.dir == "glyphs" {
+                    l.written = "./glyphs".into();
+                }
+            }
+        }
         let root = a.out.join(format!("u17_{}", ui)).join("u");
         write_ufo(&root, &u, &[], &[]);
         let full = catch(|| Font::load(&root)).ok().and_then(|x| x.ok());
@@ -569,7 +614,7 @@ pub fn main(a: &Args) {
                     match &f1 {
                         None => why.push(format!("the full load succeeds but the partial load fails: {}", s1)),
                         Some(f1) => {
-                            let want = restrict(full, &q);
+                            let want = restrict(full, &q, &u);
                             if *f1 != want {
                                 why.push("partial load differs from the restricted full load".into());
                                 if f1.layers != want.layers {
@@ -618,9 +663,10 @@ pub fn main(a: &Args) {
                 row_no += 1;
                 let _ = writeln!(
                     json,
-                    "{{\"case\":{},\"ufo\":{},\"mask\":{},\"shape\":{},\"pristine\":{},\"corrupted\":{},\"damaged\":{},\"n_unrequested\":{},\"full_ok\":{},\"oracle_ok\":{},\"why\":{}}}",
+                    "{{\"case\":{},\"ufo\":{},\"class_f23\":{},\"mask\":{},\"shape\":{},\"pristine\":{},\"corrupted\":{},\"damaged\":{},\"n_unrequested\":{},\"full_ok\":{},\"oracle_ok\":{},\"why\":{}}}",
                     this,
                     ui,
+                    class_f23(&u),
                     mask,
                     json_str(shape.shape),
                     json_str(&s1),
